@@ -4,11 +4,12 @@
 EXTENDS Spowtd, Json
 
 St == [disk |-> disk, cmd |-> txn.cmd, arg |-> txn.arg, pc |-> txn.pc]
-Edge(act, c) == PrintT("EMIT " \o ToJson([from |-> St, act |-> act, c |-> c, to |-> St']))
+Edge(act, c) == PrintT("EMIT " \o ToJson([from |-> St, act |-> act, c |-> c, to |-> St',
+                                           why |-> IF act \in {"doomed", "readfail"} THEN Outcome(disk, c) ELSE "ok"]))
 
 NextE ==
     \/ \E c \in Commands : (Begin(c) /\ Edge("begin", c)) \/ (Doomed(c) /\ Edge("doomed", c))
-    \/ \E c \in ReadOnly : Read(c) /\ Edge("read", c)
+    \/ \E c \in ReadOnly : (Read(c) /\ Edge("read", c)) \/ (ReadFails(c) /\ Edge("readfail", c))
     \/ (Write /\ Edge("write", <<"none", "none">>))
     \/ (Commit /\ Edge("commit", <<"none", "none">>))
     \/ (Fail /\ Edge("fail", <<"none", "none">>))
